@@ -285,6 +285,26 @@ fn read(rng: &mut Rng, ctx: &mut Ctx) {
               (None, Some(_)) => c.fail("C10", format!("skip-frames read of a finished replay failed: {}", sl)), _ => {} }
             ctx.push(c);
         }
+        // two replays back to back on one reader (a container, a stream of games): each read consumes exactly its own replay — the reader stands
+        // behind the closing brace afterwards — and the second read returns the second game
+        if k % 6 == 3 { let (r2, _) = gen_replay(rng, k / 6, &go); let b2 = encode(&r2); let mut both = b.clone(); both.extend(&b2);
+            for (skip, hsh) in [(false, false), (false, true), (true, false)] { if skip && (r.end.is_none() || r2.end.is_none()) { continue; }
+                let o = read_opts(skip, hsh);
+                let res = std::panic::catch_unwind(|| { let mut cur = Cursor::new(&both); let g1 = slippi::read(&mut cur, Some(&o)).map(|g| (dump::summary(&g), g.metadata.clone(), g.hash.clone())); let pos1 = cur.position() as usize;
+                    let g2 = if g1.is_ok() { Some(slippi::read(&mut cur, Some(&o)).map(|g| (dump::summary(&g), g.metadata.clone(), g.hash.clone()))) } else { None }; (g1.map_err(|e| e.to_string()), pos1, g2.map(|x| x.map_err(|e| e.to_string())), cur.position() as usize) });
+                let (s1, _) = read_line(&b, skip, false); let (s2, g2alone) = read_line(&b2, skip, false);
+                let mut c = Case::new(format!("skipcase back-to-back {} {}", skip as u8, hsh as u8), String::new()); c.tags = vec![format!("back-to-back skip{} hash{}", skip as u8, hsh as u8)];
+                match res { Err(_) => { c.impl_out = "panic".into(); c.fail("C06", "panic reading two replays back to back".to_string()); }
+                    Ok((g1, pos1, g2, pos2)) => { c.impl_out = format!("pos {} {}", pos1, pos2);
+                        match g1 { Err(e) => { if s1.starts_with("ok") { c.fail("C01", format!("first of two back-to-back replays rejected: {}", e)); } }
+                            Ok((sum1, _, h1)) => { if sum1 != s1 { c.fail("C01", "first of two back-to-back replays reads differently than alone".to_string()); }
+                                if hsh && h1.as_deref() != Some(format!("xxh3:{:016x}", xxhash_rust::xxh3::xxh3_64(&b)).as_str()) { c.fail("C11", format!("hash of the first of two back-to-back replays is {:?}", h1)); }
+                                if pos1 != b.len() { let m = format!("after reading a replay of {} bytes (skip={}, hash={}) the reader stands at {}", b.len(), skip, hsh, pos1); c.fail("C01", m.clone()); c.fail("C16", m.clone()); c.fail("C12", m.clone()); if skip { c.fail("C10", m.clone()); } if hsh { c.fail("C11", m); } }
+                                match g2 { Some(Ok((sum2, md2, h2))) => { if sum2 != s2 { c.fail("C01", "second of two back-to-back replays reads differently than alone".to_string()); }
+                                        if g2alone.as_ref().map(|g| &g.metadata) != Some(&md2) { c.fail("C16", "metadata of the second of two back-to-back replays differs".to_string()); }
+                                        if hsh && h2.as_deref() != Some(format!("xxh3:{:016x}", xxhash_rust::xxh3::xxh3_64(&b2)).as_str()) { c.fail("C11", format!("hash of the second of two back-to-back replays is {:?}", h2)); } }
+                                    Some(Err(e)) => { if s2.starts_with("ok") { let m = format!("second of two back-to-back replays rejected: {}", e); c.fail("C01", m.clone()); c.fail("C16", m); } } None => {} } } } } }
+                ctx.push(c); } }
         // the debug option (event payloads dumped into a directory) changes nothing about the result
         if k % 10 == 4 {
             let dir = std::env::temp_dir().join(format!("pv-debug-{}-{}", std::process::id(), k)); let _ = std::fs::remove_dir_all(&dir);
@@ -376,6 +396,8 @@ fn roll(rng: &mut Rng, ctx: &mut Ctx) {
         // rollbacks of every depth around small-table boundaries: a run, a jump back by `d`, the window replayed (and once more for some)
         if k % 5 == 2 { let d = [1i32, 2, 6, 7, 8, 9, 15, 16, 17, 31, 32, 33, 63, 64, 65, 127, 128, 129, 255, 256, 257][(k / 5) % 21]; let pre = (rng.next() % 4) as i32; let extra = (rng.next() % 3) as i32;
             ids = (-123..-123 + pre + d).collect(); let top = -123 + pre + d; ids.extend(top - d..top + extra); if k % 10 == 7 { ids.extend(top - d..top - d + 1 + (rng.next() % 3) as i32); } }
+        // one frame id carried by very many rows (around the widths of small counters), among others
+        if k % 20 == 11 { let m = [255usize, 256, 257, 300, 65, 128][(k / 20) % 6]; ids = vec![-123, -122]; ids.extend(std::iter::repeat(-121).take(m)); ids.extend([-120, -121, -119]); }
         if k % 40 == 39 { ids.reverse(); }
         // the extreme id needs a 2 GiB table: only in the thorough tier
         if ctx.thorough && k == 7 { ids = vec![i32::MAX, -123, i32::MAX]; }
@@ -456,6 +478,8 @@ fn arrow(rng: &mut Rng, ctx: &mut Ctx) {
                 let order2: Vec<u8> = back.ports.iter().map(|p| p.port as u8).collect();
                 g2.frames = back; let mut got = vec![]; let wg = slippi::write(&mut got, &g2);
                 if order2 != order || ww.is_ok() != wg.is_ok() || (ww.is_ok() && want != got) { win_err = Some(format!("ports listed as {:?}: after export and import they are {:?} / the written file differs", order, order2)); }
+                // the row view of such a frame table lists the ports in the order of the columns, each with its own column's values
+                for i in 0..n.min(4) { let t = g2.frames.transpose_one(i, ver); if let Err(e) = compare_view(&t, &g2.frames, i) { win_err = Some(format!("ports listed as {:?}: {}", order, e)); break; } }
             }
             if let Some(e) = win_err { return Err(format!("WINDOW {}", e)); }
             // every exported per-character column, addressed by NAME, holds the values the spec puts at that field's offset in the
@@ -636,6 +660,20 @@ fn start(rng: &mut Rng, ctx: &mut Ctx) {
             } }
         c.tags = vec![format!("endlen{}", len)]; ctx.push(c);
     }
+    // a second Game End event behind the first with *other* contents (the reader takes it for the recorder's duplicate by its size alone and
+    // ignores it): the game's end is the first block's
+    for k in 0..12usize { let v: V = [(1u8, 0u8, 0u8), (3, 0, 0), (3, 16, 0), (2, 0, 0)][k % 4]; let n = crate::gen::gend_size(v);
+        let mk = |m: u8, l: u8, pl: [u8; 4]| -> Vec<u8> { let mut e = vec![m]; if n >= 2 { e.push(l); } if n >= 6 { e.extend(pl); } e };
+        let e1 = mk([1u8, 2, 7][k % 3], [255u8, 0, 2][(k / 3) % 3], [0, 1, 255, 255]); let e2 = mk([3u8, 0, 1][k % 3], [1u8, 255, 3][(k / 3) % 3], [255, 255, 1, 0]);
+        let mut r = simple(v, &[(0, 0, 2), (1, 0, 9)], 2, &[], rng); r.end = Some(e1.clone()); if k % 2 == 0 { r.metadata = None; }
+        let pad = Pad::default(); let mut junk = vec![0x39u8]; junk.extend(&e2);
+        let plain = encode(&r); let file = assemble(&r, &table(&r, &pad), &body_events(&r, &pad), &junk, &pad);
+        let (l0, g0) = read_line(&plain, false, false); let (l1, g1) = read_line(&file, false, false);
+        let mut c = Case::new(read_cmd(false, false, &file), l1.clone()); c.tags = vec!["second-end-differs".into()];
+        match (&g0, &g1) { (Some(g0), Some(g1)) => { if end_json(&g1.end) != end_json(&g0.end) || g1.end.as_ref().map(|e| &e.bytes.0) != Some(&e1) { c.fail("C05", format!("Game End fields {} are not those of the replay's Game End block {}", end_json(&g1.end), end_json(&g0.end))); }
+                if start_json(&g1.start) != start_json(&g0.start) || g1.metadata != g0.metadata { c.fail("C08", "start / metadata differ when a second Game End event follows the first".to_string()); } }
+            (Some(_), None) => c.fail("C08", format!("replay with a second Game End event behind the first rejected: {}", l1)), _ => { let _ = l0; } }
+        ctx.push(c); }
 }
 
 pub fn gen_tree(rng: &mut Rng, depth: usize, out: &mut Vec<u8>) {
